@@ -286,6 +286,28 @@ theorem limit_exact (hooks : HookTable) (dec : Dec) (hk : HooksKeepCtl hooks) (N
   · exact finished_step hooks dec s' hf
   · exact limit_step hooks dec s' N (hm.trans hN) (by omega)
 
+/-- **The limit counts instructions since construction, whenever it is set**: if the limit N is (re)set on a machine
+    that has already executed `s.count ≤ N` instructions, then exactly `N - s.count` further steps are possible and the
+    step after them is refused and changes nothing; if `N ≤ s.count` the very next step is refused. -/
+theorem limit_absolute (hooks : HookTable) (dec : Dec) (hk : HooksKeepCtl hooks) (N : Nat) (s s' : Machine)
+    (h : stepN hooks dec (N - s.count) (setMaxInstr s N) = some s') :
+    (step hooks dec s').out = .err ∧ (step hooks dec s').s = s' := by
+  obtain ⟨hc, hm⟩ := count_after_steps hooks dec hk _ _ s' h
+  by_cases hf : s'.finished = true
+  · exact finished_step hooks dec s' hf
+  · refine limit_step hooks dec s' N (hm.trans rfl) ?_
+    simp only [setMaxInstr] at hc
+    omega
+
+/-- … and none of those `N - s.count` steps is refused on account of the limit -/
+theorem limit_absolute_not_early (hooks : HookTable) (dec : Dec) (hk : HooksKeepCtl hooks) (N k : Nat) (s s' : Machine)
+    (hkN : s.count + k < N) (hf : s'.finished = false) (h : stepN hooks dec k (setMaxInstr s N) = some s') :
+    step hooks dec s' = stepBody hooks dec s' := by
+  obtain ⟨hc, hm⟩ := count_after_steps hooks dec hk _ _ s' h
+  refine limit_not_early hooks dec s' N hf (hm.trans rfl) ?_
+  simp only [setMaxInstr] at hc
+  omega
+
 /-! ## Non-vacuity -/
 example : HooksKeepCtl [] := by
   intro mn e h; simp [HookTable.get] at h
